@@ -154,7 +154,7 @@ def trace_part(chk, S, n_examples):
 
     @st.composite
     def case(draw):
-        kind = draw(st.sampled_from(['tied', 'tied', 'continuous', 'clustered', 'sample']))
+        kind = draw(st.sampled_from(['tied', 'tied', 'continuous', 'clustered', 'sample', 'near-edge']))
         N = draw(st.integers(2, 120))
         seed = draw(st.integers(0, 10 ** 6))
         kx = draw(st.sampled_from([1, 2, 2, 3, 4, 5, 6, 8, 10]))
@@ -176,6 +176,9 @@ def trace_part(chk, S, n_examples):
             pts = rnd.randint(0, 12, size=(N, 2)).astype(float)
         elif c['kind'] == 'continuous':
             pts = rnd.uniform(-2, 12, size=(N, 2))
+        elif c['kind'] == 'near-edge':
+            # large integer values; some events one or two units above the last edge (relative distance ~1e-5)
+            pts = np.stack([rnd.randint(99960, 100003, size=N), rnd.randint(199950, 200003, size=N)], axis=1).astype(float)
         elif c['kind'] == 'clustered':
             pts = np.concatenate([rnd.normal(3, 0.7, size=(N // 2, 2)), rnd.normal(8, 1.5, size=(N - N // 2, 2))])
         else:
@@ -188,8 +191,12 @@ def trace_part(chk, S, n_examples):
         else:
             data = np.concatenate([pts, np.zeros((N, 1))], axis=1)
             ch = [0, 1]
-            xe = np.linspace(0, 10, kx + 1)
-            ye = np.linspace(1, 11, ky + 1)
+            if c['kind'] == 'near-edge':
+                xe = np.linspace(99950, 100000, kx + 1)
+                ye = np.linspace(199940, 200000, ky + 1)
+            else:
+                xe = np.linspace(0, 10, kx + 1)
+                ye = np.linspace(1, 11, ky + 1)
             # (a 2-element edge array would be read as a per-axis specification: only for kx >= 2)
             bins = {'count': kx, 'edges': [xe, ye], 'mixture': [kx, ye], 'same-edges': xe if kx >= 2 else [xe, ye]}[c['binspec']]
             kw = {}
